@@ -240,7 +240,7 @@ class Checker:
             ctx.count('schema.validated')
             if errors:
                 ctx.count('schema.rejected')
-                ctx.witness(f'schema.{_schema_key(errors, cname)}', f'{cname}: written XML is rejected by the bundled schema: {errors[0][:200]}',
+                ctx.witness(f'schema.{_schema_key(errors, info.cls)}', f'{cname}: written XML is rejected by the bundled schema: {errors[0][:200]}',
                             {'class': info.key, 'errors': errors[:4], 'xml': text1[:3000].decode('utf-8', 'replace'), 'shape': repr(shape)[:400]})
         # ---- read back ------------------------------------------------------------------------------------
         try:
@@ -490,19 +490,40 @@ _SCHEMA_KINDS = (('is not expected', 'unexpected_element'), ('Missing child', 'm
                  ('xsi:type', 'xsi_type'), ('not a valid value', 'bad_value'))
 
 
-def _schema_key(errors: list[str], class_name: str) -> str:
-    """stable mechanism key of a validation error: <offending element>[.<attribute>].<rule>; generic wrapper element names
-    (State / Descriptor / probe.*) are replaced by the class under test"""
+def _schema_key(errors: list[str], cls: type) -> str:
+    """stable mechanism key of a validation error: <offending element>[.<attribute>].<rule>.
+
+    * the element is the root of the class under test (probe.* / State / Descriptor / the message element): the class name is
+      used, and if the error names an attribute that is a member of the class, ``<DeclaringClass>.<member>``;
+    * the element is the sub-element of exactly one member of the class under test: ``<DeclaringClass>.<member>``;
+    * otherwise the element's local name (the error is inside a nested type, the same whatever the host)."""
     m = errors[0]
     el = re.search(r"Element '([^']*)'", m)
     at = re.search(r"attribute '([^']*)'", m)
     local = el.group(1).split(':')[-1] if el else 'unknown'
-    if local.startswith('probe.') or local in ('State', 'Descriptor', 'ContextState', 'MetricState', 'AlertState', 'OperationState',
-                                               'ComponentState', 'ProposedContextState', 'ProposedMetricState', 'ProposedAlertState',
-                                               'ProposedComponentState'):
-        local = class_name if local.startswith('probe.') or local in ('State', 'Descriptor') else local
+    attr = at.group(1).split(':')[-1] if at else None
     what = next((tag for needle, tag in _SCHEMA_KINDS if needle in m), 'other')
-    return '.'.join(x for x in (local, at.group(1).split(':')[-1] if at else None, what) if x)
+    node_type = getattr(cls, 'NODETYPE', None)
+    is_root = local.startswith('probe.') or local in ('State', 'Descriptor') or (node_type is not None and local == node_type.localname)
+    try:
+        props = xg.props_of(cls)
+    except Exception:  # noqa: BLE001
+        props = []
+    if is_root:
+        if attr is not None:
+            for name, prop in props:
+                an = getattr(prop, '_attribute_name', None)
+                if an is not None and (an.localname if hasattr(an, 'localname') else an) == attr:
+                    return f'{xg.declaring_class(cls, name)}.{name}.{what}'
+        return '.'.join(x for x in (cls.__name__, attr, what) if x)
+    hits = []
+    for name, prop in props:
+        sub = getattr(prop, '_sub_element_name', None)
+        if sub is not None and getattr(sub, 'localname', None) == local:
+            hits.append(name)
+    if len(hits) == 1 and what in ('bad_union_value', 'bad_atomic_value', 'bad_list_value', 'bad_value', 'facet', 'not_in_enumeration') and attr is None:
+        return f'{xg.declaring_class(cls, hits[0])}.{hits[0]}.{what}'
+    return '.'.join(x for x in (local, attr, what) if x)
 
 
 def _exc_site(ex) -> str:
@@ -554,6 +575,17 @@ def plans_for(gen: xg.Gen, info: xg.ClassInfo, cctx, budget: int, rng):  # noqa:
                     break
                 yield 'pair', xg.Plan(mode='min', present={m.name: True, m2.name: True})
                 n += 1
+    # where the library's is_optional flag and the schema disagree (exact declaration of the owner type, scalar members):
+    # the library's docstring says the flag "reflects if this element is optional in schema"
+    for m in mem:
+        if m.is_list or m.schema_optional is None or m.has_default or 'ExtensionNodeProperty' in m.names:
+            continue
+        if m.lib_optional and not m.schema_optional:
+            yield 'lib_optional_absent', xg.Plan(mode='min', present={m.name: False}, trust={m.name: 'lib'})
+            n += 1
+        elif not m.lib_optional and m.schema_optional:
+            yield 'schema_optional_absent', xg.Plan(mode='min', present={m.name: False}, trust={m.name: 'schema'})
+            n += 1
     # list lengths
     for m in lists:
         for length in (0, 1, 2, 5):
